@@ -1,0 +1,25 @@
+//go:build verif
+
+package common
+
+// Hooks for the deterministic simulator: when set, SimLockHook is called
+// before a Mutex is locked (it may block until the simulator grants the
+// request) and SimUnlockHook after it has been unlocked. The simulator
+// registers only the mutexes it wants to schedule; for all others the hooks
+// return immediately.
+var (
+	SimLockHook   func(m *Mutex)
+	SimUnlockHook func(m *Mutex)
+)
+
+func simLock(m *Mutex) {
+	if h := SimLockHook; h != nil {
+		h(m)
+	}
+}
+
+func simUnlock(m *Mutex) {
+	if h := SimUnlockHook; h != nil {
+		h(m)
+	}
+}
